@@ -186,6 +186,103 @@ where
             return bad(format!("step_by({step}) yields {got:?}"));
         }
     }
+    // the other provided consumers an impl may specialise: collect, for_each, find, position,
+    // any, all, min_by / max_by / min_by_key / max_by_key (ranked by position in the scan, so that
+    // no Ord on the items is needed: first item = smallest), partition, reduce, cmp-like eq
+    let collected: Vec<T> = make().collect();
+    if collected != want {
+        return bad(format!("collect() yields {collected:?}"));
+    }
+    let mut seen: Vec<T> = Vec::new();
+    make().for_each(|x| seen.push(x));
+    if seen != want {
+        return bad(format!("for_each() visits {seen:?}"));
+    }
+    let rank = |x: &T| want.iter().position(|w| w == x).unwrap_or(usize::MAX);
+    let rrank = |x: &T| want.iter().rposition(|w| w == x).unwrap_or(usize::MAX);
+    for (k, w) in want.iter().enumerate() {
+        let first = rank(w);
+        if make().position(|x| x == *w) != Some(first) {
+            return bad(format!("position(== item {k}) = {:?}", make().position(|x| x == *w)));
+        }
+        if make().find(|x| x == w).as_ref() != Some(w) {
+            return bad(format!("find(== item {k}) = {:?}", make().find(|x| x == w)));
+        }
+        if !make().any(|x| x == *w) {
+            return bad(format!("any(== item {k}) is false"));
+        }
+        // what remains after a short-circuiting consumer
+        let mut it = make();
+        let _ = it.find(|x| x == w);
+        let rest: Vec<T> = it.collect();
+        if rest != want[first + 1..] {
+            return bad(format!("after find(== item {k}) the rest is {rest:?}"));
+        }
+    }
+    if make().any(|_| false) || !make().all(|_| true) || make().position(|_| false).is_some() || make().find(|_| false).is_some() {
+        return bad("any / all / position / find with a constant predicate".to_string());
+    }
+    if n > 0 {
+        // (std: min_by returns the first of several minima, max_by the last of several maxima)
+        let lo = make().min_by(|a, b| rank(a).cmp(&rank(b)));
+        let hi = make().max_by(|a, b| rrank(a).cmp(&rrank(b)));
+        let lo_k = make().min_by_key(|x| rank(x));
+        let hi_k = make().max_by_key(|x| rrank(x));
+        if lo.as_ref() != want.first() || lo_k.as_ref() != want.first() {
+            return bad(format!("min_by / min_by_key (ranked by scan position) = {lo:?} / {lo_k:?}"));
+        }
+        if hi.as_ref() != want.last() || hi_k.as_ref() != want.last() {
+            return bad(format!("max_by / max_by_key (ranked by scan position) = {hi:?} / {hi_k:?}"));
+        }
+        let red = make().reduce(|a, _| a);
+        if red.as_ref() != want.first() {
+            return bad(format!("reduce(keep the first) = {red:?}"));
+        }
+    } else if make().min_by(|_, _| std::cmp::Ordering::Equal).is_some() || make().reduce(|a, _| a).is_some() {
+        return bad("min_by / reduce on an empty iterator yield something".to_string());
+    }
+    let (even, odd): (Vec<T>, Vec<T>) = {
+        let mut i = 0usize;
+        make().partition(|_| {
+            i += 1;
+            i % 2 == 1
+        })
+    };
+    let exp_even: Vec<T> = want.iter().step_by(2).cloned().collect();
+    let exp_odd: Vec<T> = want.iter().skip(1).step_by(2).cloned().collect();
+    if even != exp_even || odd != exp_odd {
+        return bad(format!("partition(alternating) yields {even:?} / {odd:?}"));
+    }
+    if !make().eq(want.iter().cloned()) || (n > 0 && make().eq(want[1..].iter().cloned())) || make().ne(want.iter().cloned()) {
+        return bad("Iterator::eq / ne against the scan".to_string());
+    }
+    // adaptors built on the iterator: chain, zip, enumerate, peekable, take / skip_while
+    let chained: Vec<T> = make().chain(make()).collect();
+    if chained.len() != 2 * n || chained[..n] != *want || chained[n..] != *want {
+        return bad(format!("chain(self) yields {chained:?}"));
+    }
+    let zipped = make().zip(make().skip(1)).count();
+    if zipped != n.saturating_sub(1) {
+        return bad(format!("zip(skip(1)).count() = {zipped}"));
+    }
+    let mut pk = make().peekable();
+    let mut via_peek = Vec::new();
+    while let Some(p) = pk.peek().cloned() {
+        let x = pk.next();
+        if x.as_ref() != Some(&p) {
+            return bad(format!("peekable: peek() gave {p:?} but next() gave {x:?}"));
+        }
+        via_peek.push(p);
+    }
+    if via_peek != want {
+        return bad(format!("peekable yields {via_peek:?}"));
+    }
+    for k in 0..=n {
+        let taken: Vec<T> = make().take(k).collect();
+        if taken != want[..k] {
+            return bad(format!("take({k}) yields {taken:?}"));
+        }
+    }
     Ok(())
 }
 
@@ -261,4 +358,81 @@ where
         }
     }
     Ok(())
+}
+
+/// A hasher that is sensitive to *how* the data is fed to it: every `Hasher` method folds its
+/// own tag and the length of its argument into the state (FNV-1a over the transcript of calls).
+/// `k1 == k2 => hash(k1) == hash(k2)` has to hold for every hasher, this one included, which is
+/// the case exactly when equal values produce the same sequence of calls; SipHash (std's
+/// default) streams its input and cannot tell `write_u8` x n from one `write` of n bytes, while
+/// hashers such as ahash or fxhash can.
+pub struct TranscriptHasher(u64);
+
+impl Default for TranscriptHasher {
+    fn default() -> Self {
+        TranscriptHasher(0xcbf29ce484222325)
+    }
+}
+
+impl TranscriptHasher {
+    fn feed(&mut self, tag: u8, bytes: &[u8]) {
+        for b in [tag].iter().chain((bytes.len() as u64).to_le_bytes().iter()).chain(bytes.iter()) {
+            self.0 = (self.0 ^ *b as u64).wrapping_mul(0x100000001b3);
+        }
+    }
+}
+
+impl std::hash::Hasher for TranscriptHasher {
+    fn finish(&self) -> u64 {
+        self.0
+    }
+    fn write(&mut self, bytes: &[u8]) {
+        self.feed(0, bytes)
+    }
+    fn write_u8(&mut self, i: u8) {
+        self.feed(1, &i.to_le_bytes())
+    }
+    fn write_u16(&mut self, i: u16) {
+        self.feed(2, &i.to_le_bytes())
+    }
+    fn write_u32(&mut self, i: u32) {
+        self.feed(3, &i.to_le_bytes())
+    }
+    fn write_u64(&mut self, i: u64) {
+        self.feed(4, &i.to_le_bytes())
+    }
+    fn write_u128(&mut self, i: u128) {
+        self.feed(5, &i.to_le_bytes())
+    }
+    fn write_usize(&mut self, i: usize) {
+        self.feed(6, &i.to_le_bytes())
+    }
+    fn write_i8(&mut self, i: i8) {
+        self.feed(7, &i.to_le_bytes())
+    }
+    fn write_i16(&mut self, i: i16) {
+        self.feed(8, &i.to_le_bytes())
+    }
+    fn write_i32(&mut self, i: i32) {
+        self.feed(9, &i.to_le_bytes())
+    }
+    fn write_i64(&mut self, i: i64) {
+        self.feed(10, &i.to_le_bytes())
+    }
+    fn write_i128(&mut self, i: i128) {
+        self.feed(11, &i.to_le_bytes())
+    }
+    fn write_isize(&mut self, i: isize) {
+        self.feed(12, &i.to_le_bytes())
+    }
+}
+
+/// SipHash of the value combined with its transcript hash (equal values must agree on both).
+pub fn both_hashes<T: std::hash::Hash>(t: &T) -> u64 {
+    use std::hash::Hasher;
+    let mut h = std::collections::hash_map::DefaultHasher::new();
+    t.hash(&mut h);
+    let mut g = TranscriptHasher::default();
+    t.hash(&mut g);
+    h.finish() ^ g.finish().rotate_left(17)
 }
